@@ -346,8 +346,9 @@ Op gen_prng(Ctx &c, GPrng &g, int obj, bool erase_bias, bool sys_only) {
             long v = (long)emitted + D[r.below(7)];
             o.a = v < 0 ? 0 : (uint64_t)v;
         } else {
-            static const uint64_t L[] = {0, 1, 31, 32, 33, 64, 96, 1000, 1024, 4096, 1048576ULL, 1048577ULL, ~0ULL, 160};
-            o.a = L[r.below(14)];
+            static const uint64_t L[] = {0, 1, 31, 32, 33, 64, 96, 1000, 1024, 4096, 1048576ULL, 1048577ULL, ~0ULL, 160,
+                                         0xFFFFFFFFULL, 1ULL << 32, (1ULL << 32) + 33, 1ULL << 37, (1ULL << 37) + 100, 1ULL << 40, 1ULL << 63, ~0ULL - 31};   // widths of size_t
+            o.a = L[r.below(22)];
         }
         g.limit = model_blocks(o.a);
         break;
